@@ -13,10 +13,11 @@ if [ "$1" = "--sed" ]; then
   if diff -q "/repo/$3" "$SCR/repo/$3" >/dev/null; then echo "MUTATION DID NOT CHANGE $3"; exit 3; fi
   shift 3
 else
-  (cd "$SCR/repo" && patch -p1 --quiet < "$1") || { echo "patch failed"; exit 3; }
+  PATCHF="$(realpath "$1")"
+  (cd "$SCR/repo" && patch -p1 --quiet < "$PATCHF") || { echo "patch failed"; exit 3; }
   shift 1
 fi
 rc_all=0
 for id in "$@"; do
-  SOPHT_REPO="$SCR/repo" RV_TIER_OVERRIDE= "$HERE/bin/check" "$id" --tier "${MUT_TIER:-quick}" --no-evidence 2>&1 | grep -E "^(VIOLATION|KNOWN-FINDING|INCONCLUSIVE|HELD|  mechanism)" | head -${MUT_LINES:-6}
+  SOPHT_REPO="$SCR/repo" RV_TIER_OVERRIDE= "$HERE/bin/check" "$id" --tier "${MUT_TIER:-quick}" --no-evidence 2>&1 | grep -E "^(VIOLATION|KNOWN-FINDING|INCONCLUSIVE|HELD|  mechanism|  max err|C[0-9]+ tier)" | head -${MUT_LINES:-6}
 done
